@@ -1,11 +1,17 @@
 #!/bin/bash
-# usage: process_seed.sh <prop> <variant a|b> <new-seed-id>   — confirm in the scratch worktree, import, run all quick checks against it
-# (run_seeded.py applies the patch to /repo and undoes it; a lock keeps two runs from overlapping)
+# usage: process_seed.sh <prop> <variant a|b>   — confirm in the scratch worktree, import under the next free id S-<prop>-<letter>,
+# run all quick checks against it in the scratch worktree (tools/run_seeded_wt.py; /repo is not touched)
 set -u
-P=$1; V=$2; ID=$3
+P=$1; V=$2
 OUT=/tmp/seedout/$P/$V; WT=${WTBASE:-/tmp/wt}/$P
 /verif/tools/confirm_seed.sh $OUT $WT > $OUT/confirm.log 2>&1
 tail -2 $OUT/confirm.log
-grep -q '^CONFIRMED' $OUT/confirm.log || { echo "NOT CONFIRMED $ID"; exit 1; }
+grep -q '^CONFIRMED' $OUT/confirm.log || { echo "NOT CONFIRMED $P/$V"; exit 1; }
+ID=""
+for L in a b c d e f g h i j k l m n o p q r s t u v w x y z; do
+  if mkdir /verif/seeded/S-$P-$L 2>/dev/null; then ID=S-$P-$L; break; fi
+done
+[ -n "$ID" ] || { echo "no free id"; exit 1; }
 python3 /verif/tools/import_seed.py $OUT $ID $P
-( flock 9; cd /verif && python3 tools/run_seeded.py seeded/$ID 2>&1 | tail -1 ) 9>/tmp/run_seeded.lock
+cp $OUT/confirm.log /verif/seeded/$ID/confirm.log
+python3 /verif/tools/run_seeded_wt.py /verif/seeded/$ID $WT 2>&1 | tail -1
